@@ -184,6 +184,13 @@ def arg_sets(ctx, rng, n):
 
 def run(ctx):
     rng = ctx.rng
+    # 0 the real headers over the RAW scheduler shim, explored without the model (lost / spurious wake-ups, workers that
+    #   leave their loop): a few runs always, many once a proof or tie is broken and in the thorough tier; first, because
+    #   it is fast and its failing runs are deterministic schedules
+    from .. import c15search
+    c15search.run(ctx)
+    if ctx.broken and len(ctx.violations) >= 4:
+        return
     with kj.scratch() as d:
         compilers = ["g++"] + (["clang++"] if not ctx.quick or ctx.broken else [])
         bins = {}
@@ -213,10 +220,6 @@ def run(ctx):
                 if len(ctx.violations) >= 6:          # enough concrete failing inputs: stop searching
                     break
                 run_probe(ctx, b, tsan, comp, variant, a)
-    # 3 the real headers over the RAW scheduler shim, explored without the model (lost / spurious wake-ups, workers that
-    #    leave their loop): a few runs always, many once a proof or tie is broken and in the thorough tier
-    from .. import c15search
-    c15search.run(ctx)
     if len(ctx.violations) >= 6:
         return
     # 4 schedule replay of the real headers against the extracted LTS
